@@ -18,12 +18,12 @@ RULE = ("4 of 5 runs: battery bench (1-200 charge()/reset() calls on one battery
         "pilots 0, 1e-9 .. 10x max); 1 of 5: whole simulations with noisy batteries; non-trivial = sequence crosses the "
         "transition SoC or reaches >= 99.9% SoC; distinct = distinct (battery class, calc, noise?, tape, crossing pattern)")
 PROBES = ["crossed_transition", "reached_99_9", "noise_draw", "extreme_tape", "pilot_above_max", "tiny_pilot",
-          "exactly_full_start", "world_runs", "stepwise_tail_noise", "long_period_call", "pilot_just_off_a_finite_level"]
+          "exactly_full_start", "world_runs", "stepwise_tail_noise", "long_period_call", "pilot_just_off_a_finite_level", "second_life"]
 FAULT_DIMENSION = "adversarial noise tape (the system's own randomness is the fault surface)"
 REAL_VS_STUB = "real: Battery, Linear2StageBattery, EV, EVSE, Simulator; ours: numpy.random.normal tape"
 ASSUMPTIONS = ["tolerances: 1e-9 relative + 1e-9 absolute on rate/power/charge comparisons",
                "pilots are non-negative (the property's scope)"]
-P_WORLD = world.profile(periods=[1, 5, 5, 7.5, 15, 60, 120], near_level_pilots=0.3, noise=0.9, battery={"l2c": 3, "l2s": 2, "ideal": 1}, tapes_noise=["prng", "extreme", "alt"],
+P_WORLD = world.profile(second_life=0.25, periods=[1, 5, 5, 7.5, 15, 60, 120], near_level_pilots=0.3, noise=0.9, battery={"l2c": 3, "l2s": 2, "ideal": 1}, tapes_noise=["prng", "extreme", "alt"],
                         party={"scripted": 3, "uncontrolled": 3, "greedy": 1})
 
 
@@ -107,6 +107,7 @@ def check_world(sc):
     out = base_outcome(tr)
     completion(tr, out, "C03", required=False)
     out.probe("world_runs")
+    out.probe("second_life", tr.fault_counts.get("second_life", 0))
     hit = False
     for p in tr.periods:
         for i, (r, pl) in enumerate(zip(p["rates"], p["pilots"])):
